@@ -589,14 +589,52 @@ Section PHist.
     (if wf then nodup_b (map fst att_log) && nodup_b (map fst prop_log) else true).
 End PHist.
 
+(* A job that is set up RUNS when its time comes.  Whenever the history fires an attestation or
+   proposal job that the observed table holds, Attest / Propose must have been invoked for that slot
+   with the duties that job carries; firing the early-proposal job while the head is the previous
+   slot runs the slot's proposal job.  All the invocations demanded this way must be found in the
+   observed logs, each as often as demanded (a job dropped because the context it was scheduled with
+   was cancelled, or a job function that works on a cancelled context, invokes nothing).  Computed
+   from the ops, the observed tables and the observed logs only. *)
+Definition entry_eqb (a b : N * payload) : bool := (fst a =? fst b) && pay_eqb (snd a) (snd b).
+Fixpoint take_out (x : N * payload) (l : list (N * payload)) : option (list (N * payload)) :=
+  match l with
+  | [] => None
+  | y :: l' => if entry_eqb x y then Some l' else option_map (cons y) (take_out x l')
+  end.
+Fixpoint all_in (need have : list (N * payload)) : bool :=
+  match need with
+  | [] => true
+  | x :: need' => match take_out x have with Some have' => all_in need' have' | None => false end
+  end.
+Fixpoint demanded (B : table) (ops : list op) (tabs : list table) : list (N * payload) * list (N * payload) :=
+  match ops, tabs with
+  | o :: ops', A :: tabs' =>
+      let B' := match o with Start => [] | _ => B end in
+      let '(da, dp) := demanded A ops' tabs' in
+      match o with
+      | Fire (JAtt s) _ => match tget B' (JAtt s) with Some j => ((s, j_pay j) :: da, dp) | None => (da, dp) end
+      | Fire (JProp s) _ => match tget B' (JProp s) with Some j => (da, (s, j_pay j) :: dp) | None => (da, dp) end
+      | Fire (JEarly s) h =>
+          if texists B' (JEarly s) && (1 <=? s) && (h =? s - 1)
+          then match tget B' (JProp s) with Some j => (da, (s, j_pay j) :: dp) | None => (da, dp) end
+          else (da, dp)
+      | _ => (da, dp)
+      end
+  | _, _ => ([], [])
+  end.
+Definition runs_ok (ops : list op) (snaps : list (option table)) (att_log prop_log : list (N * payload)) : bool :=
+  let '(da, dp) := demanded [] ops (expand [] snaps) in
+  all_in da att_log && all_in dp prop_log.
+
 (* the uint64 arithmetic of the history stays far from 2^64 (generators guarantee it; the
    predicate above computes in plain N) *)
 Definition P_b (cs : case) : bool :=
   match c_body cs with
   | BTime p probes slots epochs => P_time p probes slots epochs
   | BSecs _ => true
-  | BHist c init ops snaps al pl _ wf => P_hist c init ops snaps al pl wf
-  | BHistD c init dops snaps clocks setups _ _ _ => P_hist_d c init dops snaps clocks setups
+  | BHist c init ops snaps al pl _ wf => P_hist c init ops snaps al pl wf && runs_ok ops snaps al pl
+  | BHistD c init dops snaps clocks setups al pl _ => P_hist_d c init dops snaps clocks setups && runs_ok (map fst dops) snaps al pl
   | BMerge ds (Some out) => P_merge ds out
   | BMerge ds None => false
   end.
